@@ -34,6 +34,10 @@ def f_rank(v, log=None):
     return [r, v]
 def f_raise(v):
     raise ValueError(v)
+def f_ret_exc(v):
+    from mpi4py import MPI
+    r = MPI.COMM_WORLD.Get_rank()
+    return KeyError(v, r) if (r + v) % 2 else [r, v]      # an exception OBJECT as return value on some ranks
 def f_counter():
     import builtins
     n = getattr(builtins, "_vh_count", 0)
@@ -242,6 +246,29 @@ def body(ctx: Ctx):
                         bad.append({"executor": label, "cores": n, "got": got, "want": want})
                 finally:
                     exe.shutdown(wait=True)
+        # ---- exception objects as RETURN values (errors-as-values): delivered in the rank-ordered list like any other value
+        def cx(x):
+            return ["<exc>", type(x).__name__, list(x.args)] if isinstance(x, BaseException) else x
+
+        for kw, label in ((dict(block_allocation=True, max_workers=1, resource_dict={"cores": 3}), "block"), (dict(block_allocation=False, max_cores=3), "percall")):
+            exe = executorlib.Executor(backend="local", **kw)
+            try:
+                for v in (4, 7):
+                    f = exe.submit(g["f_ret_exc"], v, **({} if label == "block" else {"resource_dict": {"cores": 3}}))
+                    want = [["<exc>", "KeyError", [v, r]] if (r + v) % 2 else [r, v] for r in range(3)]
+                    try:
+                        got = [cx(x) for x in f.result(timeout=120)]
+                    except BaseException as e:  # noqa
+                        got = ["RAISED", type(e).__name__, [str(a) for a in e.args]]
+                    ctx.case({"executor": label, "returns_exception_object": v}, nontrivial=True)
+                    ctx.count("executor.returned_exception_objects")
+                    if got != want:
+                        bad.append({"executor": label, "cores": 3, "returns_exception_object": v, "got": got, "want": want})
+            finally:
+                try:
+                    exe.shutdown(wait=True)
+                except BaseException:  # noqa
+                    pass
         # ---- a per-call request of c ranks on an executor whose default is D ranks (c < D, c > D, unset): the call runs on
         # the ranks it asked for
         for D, cs in ((3, [2, None, 4]), (2, [3, None])):
